@@ -142,9 +142,9 @@ func cmdCheck(args []string) int {
 		return 2
 	}
 	tLoad := time.Since(t0).Seconds()
-	timeout := 25
+	timeout := 40
 	if *tier == "thorough" {
-		timeout = 90
+		timeout = 120
 		targetBudgetSecs = 900
 	}
 	// targets
@@ -199,7 +199,7 @@ func cmdCheck(args []string) int {
 	}
 	for _, t := range targets {
 		r := runTarget(p, t, 0)
-		if t.Spec != nil && r.Err == "" && r.Exec.numReturns > 1 && r.Exec.numReturns <= 16 {
+		if t.Spec != nil && r.Err == "" && r.Exec.numReturns > 1 && r.Exec.numReturns <= 64 {
 			// postconditions and frame are checked per return path; everything else on the merged run
 			var keep []*Obligation
 			for _, o := range r.Obls {
@@ -352,6 +352,9 @@ func cmdCheck(args []string) int {
 				to := timeout
 				if o.Class == "V" {
 					to, weak = 3, "" // reachability: only a refutation matters, and it is immediate when there is one
+					if strings.HasPrefix(o.Label, "pre:") || strings.HasPrefix(o.Label, "after:") {
+						to = 1
+					}
 				}
 				res := Solve2(script, weak, smtDir, fmt.Sprintf("t%d_o%d", ti, oi), to)
 				mu.Lock()
@@ -378,6 +381,27 @@ func cmdCheck(args []string) int {
 		}
 	}
 	wg.Wait()
+	// call-site vacuity guards come in pairs: a call on a path that is infeasible already before the call
+	// says nothing about the callee's contract
+	for _, r := range results {
+		byName := map[string]*Obligation{}
+		for _, o := range r.Obls {
+			byName[o.Name] = o
+		}
+		for _, o := range r.Obls {
+			if o.Class != "V" || !strings.Contains(o.Name, "#V:pre:") {
+				continue
+			}
+			after := byName[strings.Replace(o.Name, "#V:pre:", "#V:after:", 1)]
+			if o.Status == "failed" && after != nil {
+				after.Status = "proved"
+				if after.Result != nil {
+					after.Result.Output = "path infeasible before the call: " + after.Result.Output
+				}
+			}
+			o.Status = "proved"
+		}
+	}
 	replayDirOverride = *replayDirFlag
 	return report(p, *verif, *prop, *tier, seed, pc, results, t0, tLoad, solverSecs, nq, *update, *verbose, scratch, *noEvidence)
 }
